@@ -71,10 +71,17 @@ B1Variants == {<<>>} \cup {("b1" :> pr[1]) : pr \in Pairs("b1", "buyer1")}      
                      \cup {("b1" :> AsV2(pr[1], pr[2])) : pr \in Pairs("b1", "buyer1")}  \* old format
 B2Variants == {<<>>, ("b2L" :> AsV2([FreshBid("b2L", "buyer2") EXCEPT !.ab = 0], <<Ev("fill", 1, 2, 1), Ev("reject", 1, 2, 0)>>)),
                ("b2L" :> [FreshBid("b2L", "buyer2") EXCEPT !.ab = 1, !.aq = 2, !.af = 1])}
+\* upper-case hyphenated key; an approved convertible ask
+LegacyAskU == [LegacyAsk EXCEPT !.id = "a3U", !.size = 2, !.base = "cv1", !.class = "ready", !.approver = "appr1",
+                                !.convd = "base", !.conva = 2]
+LegacyBidR == [FreshBid("b4R", "buyer1") EXCEPT !.ab = 1, !.aq = 2, !.af = 1]   \* urn:uuid: key, current format
+LegacyBidB == AsV2(FreshBid("b5B", "buyer2"), <<Ev("fill", 1, 2, 1)>>)     \* braced key, old format
 AskVariants == {<<>>, ("a1L" :> LegacyAsk)}
 
 Book(a, b1, b2) == [cfg |-> Cfg, asks |-> a, bids |-> b1 @@ b2, extra |-> <<>>]
 \* old-format, current-format and old-format bids in key order (both formats live under one namespace)
+\* orders living under the other legacy id forms (upper-case, urn, braced)
+LegacyBook == Book(("a3U" :> LegacyAskU), ("b4R" :> LegacyBidR), ("b5B" :> LegacyBidB))
 FixedBook == Book(("a1L" :> LegacyAsk), ("b1" :> AsV2(FreshBid("b1", "buyer1"), <<Ev("fill", 1, 2, 1)>>)),
                   ("b2L" :> [FreshBid("b2L", "buyer2") EXCEPT !.ab = 1, !.aq = 2, !.af = 1])
                   @@ ("b3" :> AsV2(FreshBid("b3", "buyer2"), <<Ev("reject", 1, 2, 1), Ev("fill", 1, 1, 0), Ev("refund", 0, 1, 0)>>)))
@@ -92,6 +99,7 @@ AllVersions == {NoVer, "garbage", "1.0", "0.14.9", "0.15.0", "0.16.1", "0.16.2",
 Seeds ==
        {[FixedBook EXCEPT !.cfg = c] @@ [ver |-> v] : v \in AllVersions, c \in {Cfg, UnsetCfg}}
   \cup {LongBook @@ [ver |-> "0.19.0"]}
+  \cup {LegacyBook @@ [ver |-> v] : v \in {"0.18.2", "1.0.0"}}
   \cup {Book(a, b1, b2) @@ [ver |-> v] : v \in (IF Tier = "quick" THEN {"0.18.2"} ELSE {"0.18.2", "0.19.1"}),
                                           a \in (IF Tier = "quick" THEN {<<>>} ELSE AskVariants),
                                           b1 \in B1Variants, b2 \in (IF Tier = "quick" THEN {<<>>} ELSE B2Variants)}
@@ -120,6 +128,11 @@ ContReqs(S) ==
   \cup {RReverse(k, IF k = "cancel_bid" THEN (IF i = "b1" THEN "buyer1" ELSE "buyer2") ELSE "exec1", NoFunds, i, NoSize)
           : k \in {"cancel_bid", "expire_bid"}, i \in {"b1", "b2L", "b2", "b3"}}
   \cup {RReverse("cancel_bid", "buyer2", NoFunds, "s4", NoSize), RQuery("query_bid", "s4")}
+  \cup {RReverse("cancel_ask", "seller1", NoFunds, "a3U", NoSize), RReverse("expire_ask", "exec1", NoFunds, "a3U", NoSize),
+        RReverse("cancel_bid", "buyer1", NoFunds, "b4R", NoSize), RReverse("expire_bid", "exec1", NoFunds, "b4R", NoSize),
+        RReverse("cancel_bid", "buyer2", NoFunds, "b5B", NoSize), RReverse("expire_bid", "exec1", NoFunds, "b5B", NoSize),
+        RQuery("query_ask", "a3U"), RQuery("query_bid", "b4R"), RQuery("query_bid", "b5B"),
+        RReverse("reject_ask", "exec1", NoFunds, "a3U", 1), RReverse("reject_bid", "exec1", NoFunds, "b4R", 1)}
   \cup {RReverse("reject_bid", "exec1", NoFunds, i, s) : i \in {"b1", "b2L"}, s \in {NoSize, 1}}
   \cup {RReverse("reject_ask", "exec1", NoFunds, "a1L", 1)}
   \cup {RCreateAsk("seller2", Coins1("base", 2), "a2", "base", "q1", P(1), 2)}
